@@ -7,11 +7,11 @@ CONSTANTS
   ReorgPairs <- ReorgsT
   Dts = {512}
   SubmitSet <- AllTx
-  TestSet <- AllTx
+  TestSet <- NoTx
   PrioSet <- NoPrio
   Ticks <- NoTicks
   MaxBlocks = 2
-  MaxDisc = 1
+  MaxDisc = 2
   MaxReorg = 1
   MaxPrio = 0
   MaxTicks = 0
